@@ -45,6 +45,12 @@ def check(run, prog, tier):
                       "arrays the aggregate rewrites in place", minimum=2)
     rule_E(run, prog)
     rule_F(run, prog)
+    run.rule("C11-G", "the calculator reads the frequency axis (and the rotating-wave energies) under internal units: "
+                      "the line positions, which are internal, are laid on it", minimum=9)
+    from . import intunits
+    intunits.check_classes(run, prog, "C11-G", ["quantarhei.spectroscopy.abscalculator.AbsSpectrumCalculator"], 9,
+                           "transition energies and the frame frequency are internal: the lines no longer sit at their "
+                           "transition energies on the returned axis")
 
 
 def rule_F(run, prog):
